@@ -307,6 +307,50 @@ def run(chk):
         ok = isinstance(c.args[1], ast.Call) and last_attr(c.args[1].func) == "Retry"
         chk.ob("O16.5", f"`{op}` (documented as retryable) is registered through Retry", ok, c, short(c, 90), key=f"{_R}:register_default_runners:retry:{op}")
 
+    # ---- O16.6 the retry settings reach the wrapper ----------------------------------------------------------------------------------------------------------
+    chk.rule("O16.6", "for every operation documented as retryable the registered parameter source hands the task's own parameters (and with them retries, retry-until-success, "
+             "retry-wait-period, retry-on-timeout, retry-on-error) on to the runner: params() forwards self._params (or every retry key)", 30,
+             "the operation is wrapped in Retry but always makes exactly one attempt, whatever the track configures")
+    from sa.classes import ClassTable
+    pr = repo.module("esrally/track/params.py")
+    chk.use(pr)
+    tab = ClassTable(repo, ["esrally/track/params.py"])
+    reg_src = {}
+    for c in ast.walk(pr.tree):
+        if isinstance(c, ast.Call) and last_attr(c.func) == "register_param_source_for_operation" and len(c.args) == 2 and isinstance(c.args[1], ast.Name) and source.enclosing_func(c) is None:
+            member = u(c.args[0]).split(".")[-1]
+            reg_src[_re.sub(r"(?<!^)(?=[A-Z])", "-", member).lower()] = c.args[1].id
+    RETRY_KEYS = {"retries", "retry-until-success", "retry-wait-period", "retry-on-timeout", "retry-on-error"}
+
+    def forwards(cname):
+        ci = tab.get(cname)
+        f = tab.method(ci, "params")
+        if f is None:
+            return False, f"{cname} has no params()"
+        txt_nodes = [n for n in walk_body(f)]
+        all_fw = any(is_self_params(n) for n in txt_nodes)
+        keys = {k.value for n in txt_nodes if isinstance(n, ast.Dict) for k in n.keys if isinstance(k, ast.Constant)}
+        ok_ = all_fw or RETRY_KEYS <= keys
+        owner = next((c_.name for c_ in tab.mro(ci) if "params" in c_.methods), cname)
+        return ok_, f"{owner}.params() " + ("forwards self._params" if all_fw else ("names every retry key" if ok_ else f"returns only {sorted(keys)}"))
+
+    def is_self_params(n):
+        # self._params used as a value: dict(self._params), p.update(self._params), {**self._params}, return self._params, copy
+        return isinstance(n, ast.Attribute) and isinstance(n.value, ast.Name) and n.value.id == "self" and n.attr == "_params" and isinstance(n.ctx, ast.Load) \
+            and not isinstance(source.parent(n), (ast.Subscript, ast.Attribute)) and not (isinstance(source.parent(n), ast.Call) and source.parent(n).func is n)
+
+    n66 = 0
+    for op in documented:
+        cname = reg_src.get(op, "ParamSource")
+        try:
+            ok_, why = forwards(cname)
+        except AnchorMissing as e:
+            chk.unknown("O16.6", f"parameter source class {cname} of `{op}` not found: {e}", pr.tree)
+            continue
+        n66 += 1
+        chk.ob("O16.6", f"`{op}`: retry settings reach Retry through {cname}", ok_, tab.method(tab.get(cname), "params") or tab.get(cname).node, why,
+               key=f"esrally/track/params.py:{cname}.params:forwards-task-params:{op}")
+
 
 from sa.selftest import V  # noqa: E402
 
